@@ -19,7 +19,7 @@ TIERS = {
     # histories per binary
     ('C10', 'quick'): dict(n14=1400, n17=900, chunk=25, maxfaults=250),
     ('C10', 'thorough'): dict(n14=90000, n17=60000, chunk=100, maxfaults=400),
-    ('C01', 'quick'): dict(n14=6000, n17=1500, chunk=100, maxfaults=0),
+    ('C01', 'quick'): dict(n14=20000, n17=5000, chunk=250, maxfaults=0),
     ('C01', 'thorough'): dict(n14=600000, n17=150000, chunk=500, maxfaults=0),
 }
 
